@@ -663,3 +663,20 @@ Example overrun_example :
   let s := fst (cl_run (cl_init 3 []) [PWrite [1; 2]; PWrite [3; 4]; PFinish; PWrite [5]]) in
   c_result s = OWrongLength /\ c_out s = [1; 2] /\ c_stops s = 2%nat.
 Proof. vm_compute. repeat split. Qed.
+
+(** several separate values under one name - here the caller's own Connection header next to the
+    generated `Connection: close` - all reach the wire, in order *)
+Example connection_values_example :
+  let upgrade := [85; 112; 103; 114; 97; 100; 101] in
+  let h2s := [72; 84; 84; 80; 50; 45; 83; 101; 116; 116; 105; 110; 103; 115] in
+  let r := mkReq [71; 69; 84] [47] false [(HOST, [[104]]); (CONNECTION, [upgrade; h2s])] NoBody false in
+  good_request r
+  /\ exists p, parse_request (written r) = Some p
+               /\ p_headers p = [(CONNECTION, CLOSE); (HOST, [104]); (CONNECTION, upgrade); (CONNECTION, h2s)].
+Proof.
+  cbn zeta. split.
+  - unfold good_request. cbn [r_method r_uri r_headers].
+    repeat split; try reflexivity.
+    repeat constructor; cbn; intuition discriminate.
+  - eexists. split; [vm_compute; reflexivity | reflexivity].
+Qed.
